@@ -1,7 +1,7 @@
 #!/bin/bash
 # usage: seedtest.sh <property-id> <worktree> [check ids...]
 # Confirms a seeded change (compiles, baseline tests pass, demo fails with / passes without),
-# stores it under /verif/seeded/<name>/ and runs the given checks against it in /repo.
+# stores it under /verif/seeded/<name>/ and runs the given checks against the patched worktree.
 set -u
 export GOFLAGS=-mod=mod GOPROXY=off GOSUMDB=off GOTOOLCHAIN=local
 ID=$1; WT=$2; shift 2; CHECKS=${@:-$ID}
@@ -22,13 +22,15 @@ D1=$(go test -vet=off -count=1 $PKG 2>&1 | tail -1); echo "demo with patch: $D1"
 git apply -R zz_out/patch.diff
 D2=$(go test -vet=off -count=1 $PKG 2>&1 | tail -1); echo "demo without patch: $D2"
 git apply zz_out/patch.diff
-cd /repo && git apply $OUT/patch.diff || { echo "PATCH DOES NOT APPLY TO /repo"; exit 1; }
+# the checks run against the worktree itself (patch applied there); /repo is never touched and
+# the evidence of the real tree is not overwritten
+SCR=/tmp/seedout_$NAME; rm -rf $SCR; mkdir -p $SCR
 RES=""
 for c in $CHECKS; do
-  R=$(cd /verif && ./check $c quick 2>&1 | grep -v "^\[" | grep "^VIOLATION\|^HELD\|^VIOLATED\|^INCONCLUSIVE" | tail -3 | tr '\n' ' ')
+  R=$(cd /verif && VERIF_REPO=$WT VERIF_OUT=$SCR ./check $c quick 2>&1 | grep -v "^\[" | grep "^VIOLATION\|^HELD\|^VIOLATED\|^INCONCLUSIVE\|^KNOWN" | tail -3 | tr '\n' ' ')
   echo "check $c: $R"; RES="$RES $c: $R |"
 done
-git -C /repo checkout -- .
+rm -rf $SCR
 python3 - "$NAME" "$ID" "${B:-ok}" "${T:-all ok}" "$D1" "$D2" "$RES" <<'PY'
 import json,sys
 name,pid,b,t,d1,d2,res=sys.argv[1:8]
